@@ -10,10 +10,12 @@ case = dict(cfg=dict(mbs=<max_batch_size>, conc=<max_concurrent_batches>,
                      deco=<bool: use the decorator form>),
             evs=[event ...])
 event = ['call', arg, key|None]            one caller task (caller id = running count of calls)
+      | ['chain', arg, key|None, m]        one task making m+1 sequential calls, each in the continuation of the
+                                           previous answer (every call gets the next caller id when it is made)
       | ['burst', [[arg, key|None] ...]]   several caller tasks created in the same loop iteration
       | ['adv', dt]                        advance virtual time by dt ticks (1 tick = 2**-10 s)
       | ['yield', bid, key, 'v'|'e', x]    the batch function of batch bid yields (str(key), x) / (str(key), HExc(x))
-      | ['raise', bid, e]                  the batch function raises HExc(e)
+      | ['raise', bid, e]                  the batch function raises HExc(e) (for odd e an HExc that is also a KeyError)
       | ['fin', bid]                       the batch function returns
       | ['cancel', cid]                    caller task cid is cancelled
       | ['setmax', n]                      batcher.max_batch_size = n
@@ -53,6 +55,11 @@ class HExc(Exception):
     def __init__(self, kind, e):
         super().__init__(kind, e)
         self.kind, self.e = kind, e
+
+
+class HKeyExc(HExc, KeyError):
+    """The same, but also a KeyError (a failed lookup inside the user's batch function): the
+    library must not confuse it with the KeyError of its own ``futs.pop(key)``."""
 
 
 _CUR = [None]          # the running _Run (one per process at a time)
@@ -122,7 +129,8 @@ class _Run:
         self.sim = Sim()
         self.nbid = 0
         self.parked = {}       # bid -> harness future the batch function is parked on
-        self.tasks = []        # caller tasks by cid
+        self.ncid = 0          # caller ids handed out (one per call made)
+        self.inflight = {}     # cid -> task currently awaiting that call
         self.batcher = None
         self.call = None
 
@@ -146,29 +154,46 @@ class _Run:
                 x = cmd[3]
                 yield (str(cmd[1]), x if cmd[2] == 'v' else HExc('y', x))
             elif cmd[0] == 'raise':
-                raise HExc('r', cmd[1])
+                raise (HKeyExc if cmd[1] % 2 else HExc)('r', cmd[1])
             else:
                 return
 
-    async def caller(self, cid, arg, key):
-        sim = self.sim
+    async def one_call(self, arg, key):
         try:
             if key is None:
                 r = await self.call(arg)
             else:
                 r = await self.call(arg, key=str(key))
             if isinstance(r, BaseException):
-                out = ['lib', LIB_RETURNED_EXC]
-            elif isinstance(r, int) and not isinstance(r, bool):
-                out = ['ret', r]
-            else:
-                out = ['lib', LIB_RETURNED_OTHER]
+                return ['lib', LIB_RETURNED_EXC]
+            if isinstance(r, int) and not isinstance(r, bool):
+                return ['ret', r]
+            return ['lib', LIB_RETURNED_OTHER]
         except asyncio.CancelledError:
-            out = ['cancelled']
+            return ['cancelled']
         except BaseException as e:     # noqa
-            out = classify_exc(e)
-        if sim.active:
-            sim.obs('done', cid, out, sim.ticks())
+            return classify_exc(e)
+
+    async def caller(self, cid, arg, key, more=0):
+        """One task: more+1 sequential calls; a cancelled task stops calling."""
+        sim = self.sim
+        task = asyncio.current_task()
+        while True:
+            self.inflight[cid] = task
+            out = await self.one_call(arg, key)
+            self.inflight.pop(cid, None)
+            if sim.active:
+                sim.obs('done', cid, out, sim.ticks())
+            if out == ['cancelled'] or more <= 0 or not sim.active:
+                return
+            more -= 1
+            cid = self.ncid          # the next call is made right here, in the continuation
+            self.ncid += 1
+
+    def new_task(self, arg, key, more=0):
+        cid = self.ncid
+        self.ncid += 1
+        self.sim.loop.create_task(self.caller(cid, arg, key, more))
 
     def setup(self):
         import aiuti.asyncio as A
@@ -187,12 +212,12 @@ class _Run:
         if self.call is None:
             self.setup()
         if kind == 'call':
-            cid = len(self.tasks)
-            self.tasks.append(loop.create_task(self.caller(cid, ev[1], ev[2])))
+            self.new_task(ev[1], ev[2])
+        elif kind == 'chain':
+            self.new_task(ev[1], ev[2], ev[3])
         elif kind == 'burst':
             for a, k in ev[1]:
-                cid = len(self.tasks)
-                self.tasks.append(loop.create_task(self.caller(cid, a, k)))
+                self.new_task(a, k)
         elif kind in ('yield', 'raise', 'fin'):
             fut = self.parked.get(ev[1])
             if fut is not None and not fut.done():
@@ -203,8 +228,9 @@ class _Run:
                 else:
                     fut.set_result(('fin',))
         elif kind == 'cancel':
-            if 0 <= ev[1] < len(self.tasks):
-                self.tasks[ev[1]].cancel()
+            t = self.inflight.get(ev[1])
+            if t is not None:
+                t.cancel()
         elif kind == 'setmax':
             if self.batcher is not None:
                 self.batcher.max_batch_size = ev[1]
@@ -233,7 +259,7 @@ class _Run:
                 died = [o for o in s if o[0] == 'died']
                 canon.append(starts + dones + died)
             done = {o[1] for s in canon for o in s if o[0] == 'done'}
-            waiting = [c for c in range(len(self.tasks)) if c not in done]
+            waiting = [c for c in range(self.ncid) if c not in done]
             res = dict(steps=canon, waiting=waiting)
             if sim.spun:
                 res['spun'] = True
@@ -300,6 +326,8 @@ def coq_event(e):
     k = e[0]
     if k == 'call':
         return f'(Call {_n(e[1])} {C.coq_opt(e[2], _n)})'
+    if k == 'chain':
+        return f'(Chain {_n(e[1])} {C.coq_opt(e[2], _n)} {_n(e[3])})'
     if k == 'burst':
         return '(Burst ' + C.coq_list([f'({_n(a)}, {C.coq_opt(kk, _n)})' for a, kk in e[1]]) + ')'
     if k == 'adv':
@@ -354,6 +382,8 @@ def n_calls(evs):
     for e in evs:
         if e[0] == 'call':
             n += 1
+        elif e[0] == 'chain':
+            n += 1 + e[3]
         elif e[0] == 'burst':
             n += len(e[1])
     return n
@@ -379,6 +409,11 @@ def shrink_candidates(case):
             out.append(dict(case, evs=evs[:i] + [['burst', e[1][:-1]]] + evs[i + 1:]))
         if e[0] == 'adv' and e[1] > 1:
             out.append(dict(case, evs=evs[:i] + [['adv', e[1] // 2]] + evs[i + 1:]))
+        if e[0] == 'chain':
+            if e[3] > 0:
+                out.append(dict(case, evs=evs[:i] + [['chain', e[1], e[2], e[3] - 1]] + evs[i + 1:]))
+            else:
+                out.append(dict(case, evs=evs[:i] + [['call', e[1], e[2]]] + evs[i + 1:]))
     cfg = case['cfg']
     if cfg.get('deco'):
         out.append(dict(case, cfg=dict(cfg, deco=False)))
@@ -386,7 +421,7 @@ def shrink_candidates(case):
 
 
 def distribution(cases, obs):
-    d = dict(cases=len(cases), events=0, calls=0, bursts=0, adv=0, yields=0, raises=0, fins=0,
+    d = dict(cases=len(cases), events=0, calls=0, chains=0, bursts=0, adv=0, yields=0, raises=0, fins=0,
              cancels=0, setmax=0, deco=0, rt0=0, rt_pos=0,
              batch_starts=0, done_ret=0, done_yexc=0, done_rexc=0, done_missing=0, done_proto=0,
              done_cancelled=0, done_lib=0, died=0, waiting_at_end=0, immediate_shares=0)
@@ -397,6 +432,9 @@ def distribution(cases, obs):
         for e in c['evs']:
             k = e[0]
             if k == 'call':
+                d['calls'] += 1
+            elif k == 'chain':
+                d['chains'] += 1
                 d['calls'] += 1
             elif k == 'burst':
                 d['bursts'] += 1
@@ -415,7 +453,7 @@ def distribution(cases, obs):
                     d['died'] += 1
                 else:
                     d['done_' + x[2][0]] += 1
-                    if e[0] in ('call', 'burst') and x[2][0] != 'cancelled':
+                    if e[0] in ('call', 'burst', 'chain') and x[2][0] != 'cancelled':
                         d['immediate_shares'] += 1
     return d
 
